@@ -123,16 +123,17 @@ def ensure_makefile():
 
 
 def build_coq(prop, tier, report):
-    """Builds Props/<prop>.vo (always recompiling the Props file itself so that the
+    """Builds every Props/<prop>*.v (always recompiling the Props files themselves so that the
     Print Assumptions output is fresh).  Fills report['coq']."""
     ensure_makefile()
-    target_v = "Props/%s.v" % prop
-    info = {"target": target_v, "ok": False}
+    import glob
+    targets = sorted(os.path.relpath(p, COQ) for p in glob.glob(os.path.join(COQ, "Props", prop + "*.v")))
+    info = {"targets": targets, "ok": False}
     report["coq"] = info
-    if not os.path.exists(os.path.join(COQ, target_v)):
-        info["error"] = "missing " + target_v
+    if not targets:
+        info["error"] = "missing Props/%s.v" % prop
         return False
-    cone = coq_cone(target_v)
+    cone = sorted(set(f for t in targets for f in coq_cone(t)))
     info["cone"] = cone
     # hygiene
     bad = []
@@ -149,6 +150,7 @@ def build_coq(prop, tier, report):
     info["hygiene_hits"] = bad
     info["obligations"] = obligations
     info["theorems"] = names
+    vos = [t[:-2] + ".vo" for t in targets]
     if tier == "thorough":
         # rebuild the cone from clean
         for f in cone:
@@ -157,28 +159,28 @@ def build_coq(prop, tier, report):
                 if os.path.exists(p):
                     os.remove(p)
     else:
-        p = os.path.join(COQ, target_v[:-2] + ".vo")
-        if os.path.exists(p):
-            os.remove(p)
+        for v in vos:
+            p = os.path.join(COQ, v)
+            if os.path.exists(p):
+                os.remove(p)
     t0 = time.time()
-    r = sh(["timeout", "1500", "make", "-j16", target_v[:-2] + ".vo"], cwd=COQ)
+    r = sh(["timeout", "2400", "make", "-j16"] + vos, cwd=COQ)
     info["make_s"] = round(time.time() - t0, 1)
-    info["checker_cmd"] = "make -C coq -j16 %s.vo  (coq_makefile, full .vo build, coqc 8.16.1)" % target_v[:-2]
+    info["checker_cmd"] = "make -C coq -j16 %s  (coq_makefile, full .vo build, coqc 8.16.1)" % " ".join(vos)
     log = r.stdout
     os.makedirs(os.path.join(CACHE, "logs"), exist_ok=True)
     open(os.path.join(CACHE, "logs", "%s.make.log" % prop), "w").write(log)
     if r.returncode != 0:
         info["error"] = "make failed: " + log[-2000:]
         m = re.search(r'File "\./([^"]+)", line (\d+)', log)
-        info["broken"] = "%s:%s" % (m.group(1), m.group(2)) if m else target_v
+        info["broken"] = "%s:%s" % (m.group(1), m.group(2)) if m else targets[0]
         return False
     # assumptions
     axioms = set()
-    closed = 0
     for blk in re.finditer(r"Axioms:\n((?:.+\n?)+?)(?=\n\S|\Z)", log):
         for line in blk.group(1).splitlines():
-            m = re.match(r"^(\S+)\s*:", line)
-            if m:
+            m = re.match(r"^([A-Za-z_][\w.']*)\s*(?::|$)", line)
+            if m and m.group(1) != "Axioms":
                 axioms.add(m.group(1))
     closed = len(re.findall(r"Closed under the global context", log))
     info["axioms"] = sorted(axioms)
@@ -187,18 +189,18 @@ def build_coq(prop, tier, report):
     info["unknown_axioms"] = unknown
     if bad or unknown:
         info["error"] = "hygiene/axiom check failed: %s %s" % (bad, unknown)
-        info["broken"] = target_v
+        info["broken"] = targets[0]
         return False
     if tier == "thorough":
         t0 = time.time()
-        r = sh(["timeout", "1500", "coqchk", "-silent", "-o", "-Q", ".", "Corgi",
-                "Corgi.Props.%s" % prop], cwd=COQ)
+        mods = ["Corgi.Props.%s" % os.path.basename(t)[:-2] for t in targets]
+        r = sh(["timeout", "2400", "coqchk", "-silent", "-o", "-Q", ".", "Corgi"] + mods, cwd=COQ)
         info["coqchk_s"] = round(time.time() - t0, 1)
         info["coqchk_ok"] = r.returncode == 0
         info["coqchk_tail"] = r.stdout[-1500:]
         if r.returncode != 0:
             info["error"] = "coqchk failed"
-            info["broken"] = target_v
+            info["broken"] = targets[0]
             return False
     info["ok"] = True
     return True
@@ -621,7 +623,7 @@ def main():
         "wall_s": round(time.time() - t_start, 1),
         "violations": len(violations),
     }
-    if not args.replay:
+    if not args.replay and not args.no_coq:
         json.dump(ev, open(os.path.join(EVIDENCE, "%s.json" % prop), "w"), indent=1)
 
     for path, suffix in violations:
